@@ -529,7 +529,10 @@ def viRecursion (Γ : Ctx) (v : Visitor) (a : Ast) : M Unit :=
     M.bind (modifySt fun s => { s with noWarn := s.noWarn - 1 }) fun _ =>
     M.bind (if isFull then visitChild v a 2 else M.pure ()) fun _ =>
     M.bind (endScope a.lo) fun _ =>
-    setCur (.ty it)
+    -- the result is the initial value when no step is made: its type takes part in the result type
+    match merge Γ.traits it initT with
+    | none => M.bind (kidM a idx) fun k => errFail EID.typesNotEqual k.lo
+    | some m => setCur (.ty m)
 
 /-- collect `ChildTypeDebool(iter, child, eid)` for the children from index `i` on -/
 def deboolAll (v : Visitor) (a : Ast) (eid : Nat) : Nat → Nat → M (List Ty)
